@@ -453,5 +453,6 @@ func (env *ExecEnv) Eval(expr string) (n int, err error) {
 	}()
 
 	yyParse(l)
+	verifPoint(l, EvParseExit)
 	return l.n, l.err
 }
